@@ -403,11 +403,27 @@ class Stage(object):
                 rep = dict(job=dict(id="replay/0", kind="json", values=[dict(v=ev["v"], mode=ev["mode"])]))
             self.rej.append(dict(clause=r["clause"], size=r.get("size", 0), id=r["id"], line=r["line"],
                                  what=what, rep=rep))
-        if kind not in self.keep and traces and traces[0]["events"]:
-            t = traces[0]
-            self.keep[kind] = dict((k, v) for k, v in t.items() if k != "events")
-            self.keep[kind]["events"] = [e for e in t["events"] if e["ev"] != "retab" and
-                                         (kind != "tag" or (e["ok"] and not e.get("bad")))][:1]
+        # candidates for the self-test: observations of model-emitted cases (the reference certainly judges
+        # them: no mutated text, no regex without a match table), accepted by TLC, from any trace
+        if len(self.keep.get(kind, {}).get("events", [])) < 4:
+            for t in traces:
+                if t["id"].startswith("rand"):
+                    continue
+                k = self.keep.setdefault(kind, dict(dict((a, b) for a, b in t.items() if a != "events"), events=[]))
+                if k.get("ws") != t.get("ws") or k.get("sets") != t.get("sets"):
+                    continue                      # candidates share the trace-level inputs of the first one
+                for ln, e in enumerate(t["events"], 1):
+                    if e["ev"] == "retab" or (t["id"], ln) in rejected or e.get("bad"):
+                        continue
+                    if kind == "tag" and not (e["ok"] and len(e["vals"]) == len(t["sets"])):
+                        continue
+                    if kind == "json" and not e["got"]["ok"]:
+                        continue
+                    k["events"].append(e)
+                    if len(k["events"]) >= 4:
+                        break
+                if len(k["events"]) >= 4:
+                    break
         # one written-out case per kind for the evidence file
         if kind not in self.samples and traces and traces[0]["events"]:
             t, ev = traces[0], traces[0]["events"][-1]
@@ -421,29 +437,37 @@ class Stage(object):
 
 
 def selftest(st):
-    """Binding demonstration (R5): a recorded event with one corrupted observation must be rejected."""
+    """Binding demonstration (R5): recorded events with one corrupted observation each must be rejected
+    (and their uncorrupted originals accepted).  Up to four candidates per kind of trace; it is a
+    machinery failure only when no corrupted candidate of a kind is rejected or an original is."""
     import copy
     n = 0
     for kind, t in sorted(st.keep.items()):
-        good = t["events"][0]
-        bad = copy.deepcopy(good)
-        if kind == "peg":
-            r = bad["res"][-1]
-            bad["res"][-1] = dict(ok=not r["ok"], pos=0 if r["ok"] else 1, v=[] if r["ok"] else ["N"])
-        elif kind == "tag":
-            bad["vals"][-1] = not bad["vals"][-1]
-        else:
-            bad["got"]["toks"] = bad["got"]["toks"] + ["N"]
-        m = dict(t, id="selftest-" + kind, events=[good, bad])
+        events = []
+        for good in t["events"]:
+            bad = copy.deepcopy(good)
+            if kind == "peg":
+                r = bad["res"][-1]
+                bad["res"][-1] = dict(ok=not r["ok"], pos=0 if r["ok"] else 1, v=[] if r["ok"] else ["N"])
+            elif kind == "tag":
+                bad["vals"][-1] = not bad["vals"][-1]
+            else:
+                bad["got"]["toks"] = bad["got"]["toks"] + ["N"]
+            events += [good, bad]
+        if not events:
+            continue
+        m = dict(t, id="selftest-" + kind, events=events)
         val = lib.validate_traces(Stage.MOD[kind], Stage.MOD[kind] + ".cfg", [m], jobs=1)
-        lines = sorted(r["line"] for r in val["rejected"] if not r["clause"].startswith("malformed"))
-        ok_first = 1 not in [r["line"] for r in val["rejected"]] or kind == "json"   # a JSON sample may hit the known finding
-        if 2 not in lines or not ok_first:
-            raise lib.MachineryError("self-test (%s): corrupted event not rejected exactly: %s" % (kind, val["rejected"]))
+        lines = set(r["line"] for r in val["rejected"])
+        originals = [ln for ln in lines if ln % 2 == 1]
+        corrupted = [ln for ln in lines if ln % 2 == 0]
+        if originals or not corrupted:
+            raise lib.MachineryError("self-test (%s): %d candidates, corrupted copies rejected at %s, originals "
+                                     "rejected at %s: %s" % (kind, len(events) // 2, corrupted, originals, val["rejected"][:3]))
         n += 1
     if n != 3:
         raise lib.MachineryError("self-test: only %d kinds of traces available" % n)
-    print("self-test: %d corrupted events rejected" % n)
+    print("self-test: corrupted events of %d kinds of traces rejected, originals accepted" % n)
 
 
 def run(prop, tier):
